@@ -43,18 +43,18 @@ type grpChild struct {
 }
 
 type grp struct {
-	from     string
-	keys     []string
-	vals     []uint64
-	declared int
-	children []*grpChild
-	gid      string
-	timeout  int64
-	firstH   uint64
-	failedAt uint64 // block of the first failure / timeout (0 = none)
+	from        string
+	keys        []string
+	vals        []uint64
+	declared    int
+	children    []*grpChild
+	gid         string
+	timeout     int64
+	firstH      uint64
+	failedAt    uint64         // block of the first failure / timeout (0 = none)
 	lastChildSt map[string]int // child id -> status after the previous block
-	failEv   [2]int // (height, tx index) of the failing event; tx index 1<<30 for expiry
-	sawSucc  bool
+	failEv      [2]int         // (height, tx index) of the failing event; tx index 1<<30 for expiry
+	sawSucc     bool
 }
 
 func (c *grpChild) id(from string) string { return fmt.Sprintf("%s-%s-%d", from, c.to, c.idx) }
